@@ -48,7 +48,7 @@ class C07(Spec):
                  'against exact rational unit factors otherwise (E4)')
     shard = 100
     impl_jobs = 8
-    rule = ('generated models (IndepVarComp outputs promoted or not, inputs connected with src_indices on connect '
+    rule = ('generated models (IndepVarComp outputs promoted or not, true scalars declared with shape=() on sources, inputs and auto-IVCs, inputs connected with src_indices on connect '
             'and on one promotes level, auto-IVC backed promoted inputs with src_shape / shared names / '
             'set_input_defaults also next to shape_by_conn inputs, inputs connected inside a sub-group and promoted 1-2 levels above it (every level\'s name addressed), inputs with units on unitless sources, 33 unit strings) x addressable names (absolute output, promoted output, absolute input, '
             'promoted auto-IVC name) x user indices (int, slice, array, tuple; negative entries) x unit strings x '
@@ -104,7 +104,7 @@ class C07(Spec):
         case = {'sources': [], 'sinks': [], 'names': []}
         nivc = rng.choice([1, 1, 2])
         for k in range(nivc):
-            rank = rng.choice([1, 1, 2, 2, 3])
+            rank = rng.choice([0, 1, 1, 2, 2, 3])      # rank 0: a true scalar, declared with shape=()
             shape = [rng.randrange(1, 5) for _ in range(rank)]
             while prod(shape) > 16:
                 shape[rng.randrange(rank)] -= 1
@@ -115,7 +115,7 @@ class C07(Spec):
                                     'promoted': rng.random() < 0.5})
         nauto = rng.choice([0, 1, 1, 2])
         for k in range(nauto):
-            rank = rng.choice([1, 1, 2])
+            rank = rng.choice([0, 1, 1, 2])
             shape = [rng.randrange(1, 5) for _ in range(rank)]
             fam = rng.choice(FAMILIES)
             case['sources'].append({'name': 'a%d' % k, 'kind': 'auto', 'shape': shape,
@@ -156,6 +156,7 @@ class C07(Spec):
                 inp['chain'] = chain
                 inp['shape'] = list(shp) if shp else [1]
                 inp['rshape'] = list(shp)
+                inp['true0'] = (not s['shape'])      # input of a true scalar source: declared with shape=()
                 if s['units'] is not None:
                     inp['units'] = rng.choice(s['fam'] + [None])
                 elif s['kind'] == 'ivc' and rng.random() < 0.4:
@@ -178,7 +179,7 @@ class C07(Spec):
             if a['defaults'] and rng.random() < 0.5:
                 case['sinks'].append({'name': 'B%d' % nb, 'depth': 0, 'inputs': [
                     {'name': 'x0', 'src': a['name'], 'npro': 1, 'chain': [], 'shape': list(a['shape']),
-                     'rshape': list(a['shape']), 'units': a['units'], 'sbc': True}]})
+                     'rshape': list(a['shape']), 'units': a['units'], 'sbc': True, 'true0': False}]})
                 nb += 1
         # 'dangling' promoted input: connected to its source INSIDE a sub-group (with src_indices and/or other
         # units) and promoted one or two levels above that group; every level's name addresses the same variable
@@ -274,6 +275,9 @@ class C07(Spec):
                 # a scalar is broadcast only without indices (with indices the code demands the exact shape)
                 scalar = ((level is None and not n['chain']) or size == 1) and rng.random() < 0.25
                 vals = [rng.randrange(-20, 21)] if scalar else [rng.randrange(-20, 21) for _ in range(size)]
+                if not s['shape']:
+                    scalar = True        # a true scalar variable is set with a number
+                    vals = vals[:1]
                 hist.append(dict(base, op='set', vals=vals, vshape=vshape, scalar=scalar))
                 if not free:
                     shp, nodup = list(s['shape']), True
